@@ -183,6 +183,8 @@ class Monitor(object):
                 break
         if when == 'rebuild':
             dom = 'rebuild'
+        if dom == 'scroll' and disp.notes.get('scroll_with_reversed_rows'):
+            dom = 'scroll-with-reversed-rows'
         d = disp.diff_pixels(px)
         if d is not None:
             ok = False
@@ -193,7 +195,7 @@ class Monitor(object):
             else:
                 _, y, x, shown, reported = d
                 what = 'pixel (%d,%d): display shows attribute %d, session reports %d' % (x, y, shown, reported)
-                if dom == 'scroll':
+                if dom.startswith('scroll'):
                     # the row a scroll vacated: display painted the background attribute, the session did not
                     for sc in self.step_scrolls[-40:]:
                         direction, a, b, back = sc
@@ -528,6 +530,9 @@ def directed(harness, res):
             ('cga', [b'CLS'] + [b'LOCATE %d,1:PRINT "row%02d";' % (r, r) for r in range(1, 25)] + [b'10 LOCATE 5,7:INPUT A$', (b'RUN', 'ab\n\r')]),
             ('ega', [b'SCREEN 9', b'CLS'] + [b'LOCATE %d,1:PRINT "row%02d";' % (r, r) for r in range(1, 25)] + [
                 b'VIEW PRINT 3 TO 12', b'10 LOCATE 5,7:INPUT A$', (b'RUN', 'ab\ncd' + 'x' * 90 + '\r')]),
+            # line feed typed on row 25 (outside the scroll area)
+            ('cga', [b'CLS', b'LOCATE 25,1', b'10 INPUT A$', (b'RUN', 'F\n\x0b\r')]),
+            ('ega', [b'CLS', b'VIEW PRINT 9 TO 11', b'LOCATE 11,1', b'10 INPUT A$', (b'RUN', 'abc\n\x1b\r'), (b'RUN', 'abc\ndef\n\x1e\x1b\r')]),
             # PCOPY onto the visible page, then change the (hidden) source page: the visible page must not change
             ('cga', [b'SCREEN 0,,1,0', b'PRINT "ABC"', b'PCOPY 1,0', b'CLS', b'PRINT "DEF"']),
             ('ega', [b'SCREEN 7,,1,0', b'PRINT "ABC"', b'PCOPY 1,0', b'LINE(0,0)-(30,7),1,BF']),
